@@ -122,6 +122,22 @@ def rule_rows(ctx, rule_id, classes):
                 news = [e for e in p.events if e.kind == 'new' and e.data['cls'].name == responder]
                 if len(news) != 1:
                     ok, detail = False, 'no %s is created for the request' % responder
+                    continue
+                robj = news[0].data['value'].term
+                # the responder is started with the request frame itself (initial request-n, complete flag) ...
+                if cname in ('RequestStreamFrame', 'RequestChannelFrame'):
+                    fr = [e for e in p.events if e.kind == 'call' and e.data.get('name') == 'frame_received' and
+                          e.data.get('recv') is not None and strip_epoch(e.data['recv'].term) == strip_epoch(robj)]
+                    if len(fr) != 1 or [strip_epoch(a.term) for a in fr[0].data['args']] != [frame.term]:
+                        ok, detail = False, ('the new %s is not handed the request frame (its initial request-n never '
+                                             'reaches the publisher)' % responder)
+                # ... and, for a channel, wired to the application's subscriber before that
+                if cname == 'RequestChannelFrame':
+                    sub = [e for e in p.events if e.kind == 'call' and e.data.get('name') == 'subscribe' and
+                           e.data.get('recv') is not None and strip_epoch(e.data['recv'].term) == strip_epoch(robj)]
+                    if len(sub) != 1 or not fr or sub[0].seq > fr[0].seq:
+                        ok, detail = False, 'the channel responder is not subscribed to the application\'s subscriber ' \
+                                            'before it receives the request frame'
         rep.add(rule_id, construct, f, ok and n_ret > 0,
                 detail or '%s -> %s: calls the application\'s %s once with the payload of the frame%s (%d paths)' % (
                     cname, meth, app_name, ' and creates a %s' % responder if responder else '', n_ret))
